@@ -39,7 +39,7 @@ def wrap(res):
 
 def contains_sym(a):
     for x in np.asarray(a, dtype=object).flat:
-        if isinstance(x, (SR, SB, SC)):
+        if is_sym(x):
             return True
     return False
 
@@ -50,7 +50,7 @@ def _plain(x):
         if b.dtype != object:
             b = b.astype(object)
         return b
-    if isinstance(x, (SR, SB, SC)):
+    if is_sym(x):
         return wrap0(x)
     if isinstance(x, (list, tuple)):
         a = np.asarray(x) if not _seq_has_sym(x) else _obj_array(x)
@@ -60,7 +60,7 @@ def _plain(x):
 
 def _seq_has_sym(x):
     for e in x:
-        if isinstance(e, (SR, SB, SC)):
+        if is_sym(e):
             return True
         if isinstance(e, (list, tuple)) and _seq_has_sym(e):
             return True
